@@ -254,13 +254,18 @@ let () =
   let bad = ref 0 and total = ref 0 in
   (* hypotheses of RankSafe.handlers_never_nest_nor_run_masked, evaluated by the extracted definitions *)
   let illegal = ref [] in
+  (* ... and of RankNoErr.no_assertion_fails_on_every_layout: destinations are ranks of the communicator *)
+  let nr = nat_of_int n in
   Hashtbl.iter (fun u l -> if not (List.for_all legal_h l) then illegal := Printf.sprintf "handler-%d" u :: !illegal) msgs;
   Hashtbl.iter (fun i l -> if not (List.for_all legal_h l) then illegal := Printf.sprintf "callback-%d" i :: !illegal) cbs;
   Hashtbl.iter (fun r l -> if legal_main O l <> Some O then illegal := Printf.sprintf "main-%d" r :: !illegal) mains;
-  Printf.printf "LEGAL %s\n" (if !illegal = [] then "ok" else String.concat "," !illegal);
+  Hashtbl.iter (fun u l -> if not (List.for_all (hact_ok nr) l) then illegal := Printf.sprintf "handler-dest-%d" u :: !illegal) msgs;
+  Hashtbl.iter (fun i l -> if not (List.for_all (dests_ok nr) l) then illegal := Printf.sprintf "callback-dest-%d" i :: !illegal) cbs;
+  Hashtbl.iter (fun r l -> if not (List.for_all (dests_ok nr) l) then illegal := Printf.sprintf "main-dest-%d" r :: !illegal) mains;
   for me = 0 to n - 1 do
     (try
       let (toks, orc) = digest routing me logs.(me) in
+      if not (List.for_all (resp_okb nr) orc) then illegal := Printf.sprintf "received-dest-%d" me :: !illegal;
       let c = { c_n = z_of_int (n / ppn); c_p = z_of_int ppn; c_me = z_of_int me; c_routing = z_of_int routing; c_cap = z_of_int cap;
                 c_nisw = z_of_int nisw; c_freq = z_of_int freq; c_hprog = hprog; c_cbprog = cbprog } in
       let main = try Hashtbl.find mains me with Not_found -> [] in
@@ -287,4 +292,5 @@ let () =
     | Failure m -> incr bad; Printf.printf "RANK %d MISMATCH driver-failure: %s\n" me m
     | Not_found -> incr bad; Printf.printf "RANK %d MISMATCH driver-failure: missing field in a log line\n" me)
   done;
+  Printf.printf "LEGAL %s\n" (if !illegal = [] then "ok" else String.concat "," !illegal);
   Printf.printf "LOCKSTEP %s ranks=%d events=%d\n" (if !bad = 0 then "ok" else "mismatch") n !total
